@@ -15,7 +15,8 @@ CONSTANTS MaxCalls,      \* data calls after the header
           FlagSets,      \* set of sets of flag names that are TRUE
           WithAux,       \* BOOLEAN: attachments and metadata in the workload
           MinCalls,      \* Close is enabled after this many data calls (0 in exhaustive runs; biases -simulate to long runs)
-          WithAsm        \* BOOLEAN: the caller also assembles chunks itself (AddSchema, AddChannel, WriteChunkWithIndexes)
+          WithAsm,       \* BOOLEAN: the caller also assembles chunks itself (AddSchema, AddChannel, WriteChunkWithIndexes)
+          WithRefusals   \* BOOLEAN: calls the writer refuses (message on a channel it was never given, channel with a schema it was never given)
 
 VARIABLES w, phase, calls
 vars == <<w, phase, calls>>
@@ -76,6 +77,13 @@ DoMetadata == CanCall /\ WithAux
   /\ w' = WriteMetadata(w, MdVal(Len(calls)))
   /\ calls' = Append(calls, [k |-> "Metadata"] @@ MdVal(Len(calls))) /\ UNCHANGED phase
 
+(* a call outside the writer's enabling conditions is answered with an error and changes nothing: not the position, not
+   the chunk buffer, not the statistics (the call is counted so that it takes a place in the sequence) *)
+DoRefused == CanCall /\ WithRefusals
+  /\ \/ \E ch \in ChannelIds : ~MessageOK(w, MessageVal(ch, 0, 0, 0))
+     \/ \E id \in ChannelIds, sc \in SchemaIds : ~ChannelOK(w, ChannelVal(id, sc))
+  /\ calls' = Append(calls, [k |-> "Refused"]) /\ UNCHANGED <<w, phase>>
+
 DoClose ==
   /\ phase = "open" /\ Len(calls) >= MinCalls
   /\ \E cs \in (IF w.cfg.chunked /\ w.cpos > 0 THEN CSizes(w) ELSE {0}) : w' = Close(w, cs)
@@ -128,7 +136,7 @@ DoExtChunk == CanCall /\ WithAsm /\ w.cpos = 0 /\ \E form \in ChunkForms, ch \in
   /\ w' = CallerCounts(WriteChunkWithIndexes(w, c, given), items)
   /\ calls' = Append(calls, [k |-> "Chunk", items |-> items, idx |-> idx, comp |-> ""]) /\ UNCHANGED phase
 
-Next == DoHeader \/ DoSchema \/ DoChannel \/ DoMessage \/ DoAttachment \/ DoMetadata \/ DoClose
+Next == DoHeader \/ DoSchema \/ DoChannel \/ DoMessage \/ DoAttachment \/ DoMetadata \/ DoClose \/ DoRefused
         \/ DoAddSchema \/ DoAddChannel \/ DoExtChunk
 Spec == Init /\ [][Next]_vars
 
